@@ -728,3 +728,15 @@ func (repo *RegRepo) ManifestBytes(d digest.Digest) ([]byte, bool) {
 	m, ok := repo.Manifests[d]
 	return m.bytes, ok
 }
+
+// IndexManifests returns the digests of stored manifests of media type image index, sorted.
+func (repo *RegRepo) IndexManifests() []digest.Digest {
+	var out []digest.Digest
+	for d, m := range repo.Manifests {
+		if m.mediaType == ocispec.MediaTypeImageIndex {
+			out = append(out, d)
+		}
+	}
+	sort.Slice(out, func(i, j int) bool { return out[i] < out[j] })
+	return out
+}
